@@ -253,12 +253,15 @@ def record_r3(seed, count, nmax):
             # integer-valued data go to the detector as int64 half of the time (the table is recorded from the float copy)
             Xin = X.astype(np.int64) if np.all(X == np.round(X)) and rng.integers(0, 2) else X
             det = PELT(cost=mk(), penalty_scale=scale, min_segment_length=m).fit(Xin)
-            if rng.integers(0, 2):
+            touched = bool(rng.integers(0, 2))
+            if touched:
                 touch_same_index(det, Xin)   # the detector has already answered for other values under the same index
+                # ... and is then asked for the scores of Xin directly (transform_scores), before any predict(Xin)
+                ts = det.transform_scores(Xin).to_numpy().ravel()
             cps = det.predict(Xin)["ilocs"].to_numpy()
         except RuntimeError:
             continue  # documented error: slice covariance not positive definite
-        scores = det.scores.to_numpy()
+        scores = ts if touched else det.scores.to_numpy()
         vals = list(C.values()) + [det.penalty_] + [float(x) for x in scores[m - 1:]]
         if not all(math.isfinite(v) for v in vals):
             continue
